@@ -85,7 +85,7 @@ def X04(ctx):
     txs = [e["tx"] for h in hists for e in h[1:]]
     classes_exp = collections.Counter(t["class"] for t in txs)
     for c in ("ok", "auth", "locked", "toobig", "negative", "insufficient", "fail"):
-        if classes_exp[c] < (2 if q else 20):
+        if classes_exp[c] < (1 if q else 20):
             raise ToolError("vacuous histories: class %s occurs %d times" % (c, classes_exp[c]))
     zero = {"x": 0, "u": 0}
     phen = {"royalties_to_several_recipients": sum(1 for t in txs if sum(1 for v in t["royalty"].values() if v != zero) >= 3),
@@ -132,11 +132,13 @@ def X04(ctx):
                     "operations (4 kinds of calls, set with %d amounts incl. zero / maximum / above maximum / negative, lock, claim, "
                     "package claim, a failing instruction) x callers x ample / tiny locked fee from every reachable configuration, with "
                     "conservation, locked-config stickiness, failed-pays-nothing, paid = credited, accrued = sum of configured amounts, "
-                    "claim exactness and owner gating as properties; GenRoyalty: %d seeded histories of %d transactions of 1..4 "
+                    "claim exactness and owner gating as properties; GenRoyalty: one scripted history of 34 transactions visiting every "
+                    "limit and operation kind (maximum / above / zero / negative amounts in XRD and USD, locked configurations, claims, "
+                    "tiny fees under and over the budget) and %d seeded histories of %d transactions of 1..4 "
                     "operations over two components, replayed as real transactions: receipt class, total_royalty_cost_in_xrd, "
                     "to_royalty_recipients, the fee payer's vault loss minus the other costs, royalty configuration / lock flags and "
                     "the four royalty vaults from the database, claimed XRD arriving in a sink account; distinct = distinct histories"
-                    % (4 if q else 7, len(hists), k)}
+                    % (3 if q else 7, len(hists) - 1, k)}
 
 
 # ---------------------------------------------------------------------------------------------
@@ -211,10 +213,12 @@ def X05(ctx):
             "rule": "MCMetadata: 3 keys (short, exactly 100 bytes, 101 bytes) x 8 values (at / over the 4096-byte payload limit, URLs "
                     "well-formed / malformed / 1025 bytes / 5000 bytes, malformed origin) x set / remove / lock / get / role assignment x "
                     "every subset of 3 badges from every initial map, with locked-entry stickiness, limits of stored values, guarded "
-                    "change, get = stored and only-the-key as properties; GenMetadata: %d seeded histories of %d operations from random "
+                    "change, get = stored and only-the-key as properties; GenMetadata: one scripted history of 43 operations visiting "
+                    "every limit from both sides with every operation (payload 4095 / 4096 / 4097, URL 1024 / 1025 / 5000, keys of 100 / "
+                    "101 bytes, locked present / absent entries, role reassignment) and %d seeded histories of %d operations from random "
                     "initial maps and role assignments, each operation one transaction on a fresh component's metadata module; outcome "
                     "class, the value returned by get, every entry (presence, value, lock flag) and both role assignments read back "
-                    "from the database after every step; distinct = distinct histories" % (len(hists), k)}
+                    "from the database after every step; distinct = distinct histories" % (len(hists) - 1, k)}
 
 
 PROPS = {
